@@ -79,6 +79,38 @@ def run_impl(case, path):
     return "ok", out
 
 
+def default_config_leg(n, seed):
+    """two stores built with the DEFAULT db_uri (only batch_size given) in one process, the first still open: each must stream
+    its own traces only"""
+    import random
+    from tel2puml.otel_to_pv.data_holders import SQLDataHolder
+    from tel2puml.otel_to_pv.config import SQLDataHolderConfig
+    rnd = random.Random(seed * 6007 + 12)
+    bad = []
+    for k in range(n):
+        bs = rnd.choice([1, 2, 1000])
+        a = S.gen_trace(rnd, job=1, name=1, first_id=1, n=rnd.choice([1, 2, 3])) + S.gen_trace(rnd, job=2, name=2, first_id=10, n=2)
+        b = S.gen_trace(rnd, job=3, name=1, first_id=20, n=rnd.choice([1, 2, 3])) + S.gen_trace(rnd, job=4, name=3, first_id=30, n=2)
+        ha = SQLDataHolder(SQLDataHolderConfig(batch_size=bs))
+        sa = S.ingest(ha, a)
+        hb = SQLDataHolder(SQLDataHolderConfig(batch_size=bs))
+        sb = S.ingest(hb, b)
+        try:
+            got = sorted(S.un(e.event_id) for _, jobs in hb.stream_data(None) for job in jobs for e in job)
+        except Exception as e:  # noqa
+            got = "ERR:" + type(e).__name__
+        want = sorted(e["id"] for e in b)
+        if sa != "ok" or sb != "ok" or got != want:
+            bad.append(dict(kind="a store built with the default configuration streams spans that were never saved into it (or loses its own)",
+                            batch_size=bs, first_store=a, second_store=b, ingest_status=[sa, sb], second_store_streams_ids=got, expected_ids=want))
+        for h in (ha, hb):
+            try:
+                h.session.close(); h.engine.dispose()
+            except Exception:  # noqa
+                pass
+    return bad
+
+
 def oracle(case, nodes, assoc, streamed):
     """the property, on the streamed result"""
     fm = case["fm"]
@@ -180,6 +212,10 @@ def run(out: common.Outcome, explore: int = 0) -> None:
         dis += [int(name[1:]) + i for i in l]
     for k, why, streamed in bad[:3]:
         out.violation({"kind": "streamed result violates the property", "why": why, "case": cases[k], "streamed": streamed})
+    dflt = default_config_leg(10 if out.tier == "quick" else 100, out.seed)
+    for b in dflt[:2]:
+        out.violation(b)
+    out.coverage["default_config_pairs"] = 10 if out.tier == "quick" else 100
     if ok and not out.violations and (dis or coq_fail):
         out.violation({"kind": "correspondence-broken",
                        "relation": "stream_data (consumed in nesting order) == V.Store.Stream.stream modulo intra-trace order",
@@ -206,6 +242,10 @@ def run(out: common.Outcome, explore: int = 0) -> None:
 
 
 def replay(out: common.Outcome, rp: dict) -> None:
+    if "second_store" in rp:
+        print(rp["kind"], rp["second_store_streams_ids"], "expected", rp["expected_ids"])
+        out.coverage.update({"evaluations": 1, "distinct_nontrivial": 0, "rule": "replay", "samples": [rp]})
+        return
     common.setup_impl_path()
     import tel2puml.events  # noqa
     case = rp["case"]
